@@ -1447,6 +1447,11 @@ class DigitalWaveform(Generic[TDigitalState]):
         if isinstance(data, np.ndarray) and data.dtype != dtype:
             # Pickle protocols below 5 store an array of non-native byte order as a native one.
             kwargs = {**kwargs, "data": data.astype(dtype)}
+        data = kwargs.get("data")
+        if isinstance(data, np.ndarray) and data.flags.owndata and not data.flags.c_contiguous:
+            # NumPy rebuilds a Fortran-ordered array in Fortran order; a waveform's own buffer is
+            # C-ordered, or it could never grow. (copy.copy passes a view here, which stays shared.)
+            kwargs = {**kwargs, "data": np.ascontiguousarray(data)}
         return cls(*args, **kwargs)
 
     def __reduce_ex__(self, protocol: SupportsIndex, /) -> tuple[Any, ...]:
